@@ -79,15 +79,18 @@ CHECKS = {
         "(exact 0, int->long 1, inheritance distance, null 3), ties ambiguous. Simultaneous release of several destructor-bearing objects is unspecified and skipped.",
    technique="Coq proof (list/chain induction) + extraction-based differential testing of generated class hierarchies"),
  "C09": dict(
-   level=("proof", "Coq theorems (axiom-free) on the lexically scoped reference interpreter: name lookup reads the running body's frame, then the enclosing "
-          "object, then the enclosing class's statics, and is unaffected by whatever callers are suspended; an assignment never changes a suspended "
-          "caller's environment (it goes to a local, else to a field or static); a call hands the caller's environment and class context back untouched; "
-          "an injective renaming of a frame commutes with lookup/update/declare and preserves the referenced-object set. The interpreter-wide "
-          "alpha-renaming statement is not yet a theorem (partial): the property is decided on the implementation by (1) differential execution against "
-          "the interpreter on programs whose locals, parameters and fields share one name pool and (2) renaming 1-3 locals/parameters of one function, "
-          "method or constructor to fresh and to colliding names and requiring identical output.", "DESIGN.md §6 C09"),
-   note="Trusted: Coq kernel; extraction; glue; the Python renamer (capture-free by construction: the new name is unused in the body).",
-   technique="Coq proof (frame-level scoping invariants) + extraction-based differential testing + metamorphic alpha-renaming on the implementation"),
+   level=("proof", "Coq theorems on the lexically scoped reference interpreter. For programs without classes the property itself is proved: giving "
+          "every function its own injective renaming of locals and parameters (one function renamed to fresh or to colliding names, the others left "
+          "alone, being the special case) leaves every run unchanged, for every fuel - a lock-step simulation between the original and the renamed "
+          "program over all class-free syntax (uses functional extensionality to identify the function tables). For all programs (axiom-free): name "
+          "lookup reads the running frame, then the enclosing object, then the enclosing class's statics and is unaffected by suspended callers; an "
+          "assignment never changes a suspended caller's environment; a call returns the caller's environment and class context untouched; renaming "
+          "commutes with lookup/update/declare and preserves the referenced-object set. The implementation is decided by (1) differential execution "
+          "against the interpreter on class and function programs whose locals, parameters and fields share one name pool and (2) renaming 1-3 "
+          "locals/parameters of one function, method or constructor to fresh and to colliding names and requiring identical output. For programs with "
+          "classes the interpreter-wide renaming statement is not a theorem (partial).", "DESIGN.md §6 C09"),
+   note="Trusted: Coq kernel + functional_extensionality_dep (whole-program statement only); extraction; glue; the Python renamer (capture-free by construction).",
+   technique="Coq proof (lock-step simulation under renaming; frame-level scoping invariants) + extraction-based differential testing + metamorphic alpha-renaming on the implementation"),
  "C10": dict(
    level=("proof", "Coq theorems on the reference interpreter: lookup by name in a duplicate-free declaration list is invariant under permutation "
           "(axiom-free); hence evaluation from any state, and every whole run, is identical for any permutation of the functions and - for class tables "
